@@ -172,6 +172,7 @@ func c11Run(c *fw.Ctx, cs *c11Case, vtWait func()) {
 		msg   util.Message
 		want  []byte
 		again int // this many messages later the producer submits the very same object once more (a cached keep-alive)
+		skip  bool // part of a batch submitted as one raw buffer by an earlier item
 	}
 	type keptMsg struct {
 		xid  uint32
@@ -236,6 +237,43 @@ func c11Run(c *fw.Ctx, cs *c11Case, vtWait func()) {
 			total += len(it.want) * expectedCount[xid]
 		}
 	}
+	// batches: a run of consecutive messages of one producer handed over as ONE raw buffer holding their encodings
+	// back to back (a relay forwarding what it read, a request followed by its barrier); such a buffer may well be
+	// larger than one frame can be (65535 bytes). Every frame in it is expected on the wire like any other.
+	for p := 0; p < P; p++ {
+		rb := prng.Derive(cs.MsgSeed, 777, uint64(p))
+		for k := 0; k < len(items[p]); k++ {
+			if !rb.Chance(1, 10) || items[p][k].again > 0 {
+				continue
+			}
+			goal := rb.Pick(2, 2, 3, 8, 40)
+			minBytes := 0
+			if rb.Chance(1, 3) {
+				goal, minBytes = 400, 66000+rb.Intn(30000) // until the buffer no longer fits a 16-bit size
+			}
+			var cat []byte
+			j := k
+			for j < len(items[p]) && items[p][j].again == 0 && !items[p][j].skip && (j-k < goal) && (minBytes == 0 || len(cat) < minBytes) {
+				if _, isRaw := items[p][j].msg.(*util.Buffer); isRaw && j > k {
+					break
+				}
+				cat = append(cat, items[p][j].want...)
+				j++
+			}
+			if j-k < 2 {
+				continue
+			}
+			raw := util.NewBuffer(append([]byte(nil), cat...))
+			items[p][k].msg = raw
+			for q := k + 1; q < j; q++ {
+				items[p][q].skip, items[p][q].msg = true, nil
+			}
+			kept = append(kept, keptMsg{xid: uint32(p)<<20 | uint32(k), msg: raw, want: cat})
+			c.Count("raw_batches", 1)
+			c.Max("max_raw_batch_bytes", int64(len(cat)))
+			k = j - 1
+		}
+	}
 	// full duplex: frames arrive on the same connection while the producers submit (the two directions share the
 	// connection and the stream object; the race detector watches, and the inbound side must not lose anything either)
 	var inbound []byte
@@ -283,6 +321,9 @@ func c11Run(c *fw.Ctx, cs *c11Case, vtWait func()) {
 			}
 			var resend []pending
 			for k := range items[p] {
+				if items[p][k].skip {
+					continue
+				}
 				if cs.Virtual && cs.IdleEvery > 0 && k%cs.IdleEvery == 0 {
 					time.Sleep(time.Duration(cs.IdleSec) * time.Second) // virtual: the connection sits idle meanwhile
 				}
